@@ -17,11 +17,13 @@ import (
 	"net/http/httptest"
 	"os"
 	"os/exec"
+	"path/filepath"
 	"sort"
 	"strings"
 	"sync"
 	"time"
 
+	"github.com/google/pprof/internal/binutils"
 	"github.com/google/pprof/internal/plugin"
 	"github.com/google/pprof/internal/zzverif/vdrv"
 	"github.com/google/pprof/internal/zzverif/vlib"
@@ -65,9 +67,67 @@ func theProfile() *profile.Profile {
 	return vlib.NewConc(0).Profile(ap)
 }
 
+// binMode: the history under test disassembles; every session of it (and of its references) runs on a profile of a
+// real binary with the real object tools
+var binMode bool
+
+func binProfile() *profile.Profile {
+	repo := os.Getenv("VERIF_REPO")
+	if repo == "" {
+		repo = "/repo"
+	}
+	exe := filepath.Join(repo, "internal", "binutils", "testdata", "exe_linux_64")
+	fn := &profile.Function{ID: 1, Name: "main", SystemName: "main", Filename: "hello.c"}
+	m := &profile.Mapping{ID: 1, Start: 0x400000, Limit: 0x4006fc, File: exe, HasFunctions: true}
+	loc := &profile.Location{ID: 1, Mapping: m, Address: 0x400531, Line: []profile.Line{{Function: fn, Line: 4}}}
+	return &profile.Profile{
+		SampleType: []*profile.ValueType{{Type: "samples", Unit: "count"}},
+		PeriodType: &profile.ValueType{Type: "cpu", Unit: "nanoseconds"}, Period: 1,
+		Sample:   []*profile.Sample{{Location: []*profile.Location{loc}, Value: []int64{10}}},
+		Location: []*profile.Location{loc}, Function: []*profile.Function{fn}, Mapping: []*profile.Mapping{m},
+	}
+}
+
 func session(lines []string) *vdrv.Result {
+	if binMode {
+		p := binProfile()
+		return vdrv.Run(vdrv.Opts{Args: []string{"-functions", "-flat", "src"}, Lines: lines, Obj: &binutils.Binutils{},
+			Fetch: func(string) (*profile.Profile, error) { return p.Copy(), nil }})
+	}
 	return vdrv.Run(vdrv.Opts{Args: []string{"-functions", "-flat", "src"}, Lines: lines,
 		Fetch: func(string) (*profile.Profile, error) { return prof.Copy(), nil }})
+}
+
+// sourceDirs creates (once; the children of this process inherit the names) two directories holding different
+// sources under the file names the profile records, and returns them.
+func sourceDirs() (string, string) {
+	a, b := os.Getenv("C10_SRCA"), os.Getenv("C10_SRCB")
+	if a != "" {
+		return a, b
+	}
+	root, err := os.MkdirTemp("", "c10-src-")
+	if err != nil {
+		run.Infra(err.Error())
+		return "/nonexistent-a", "/nonexistent-b"
+	}
+	for _, d := range []string{"A", "B"} {
+		// the directories are called .../proj: the recorded names /build/proj/src/a.c are then found below them
+		// (the base name of a source_path entry is looked for in the recorded name) with or without trim_path=/build
+		for _, f := range []string{"/proj/src/a.c", "/proj/lib/b.c"} {
+			p := filepath.Join(root, d, f)
+			os.MkdirAll(filepath.Dir(p), 0o755)
+			var sb strings.Builder
+			for i := 1; i <= 40; i++ {
+				fmt.Fprintf(&sb, "/* %s %s line %d */\n", d, filepath.Base(f), i)
+			}
+			os.WriteFile(p, []byte(sb.String()), 0o644)
+		}
+	}
+	a, b = filepath.Join(root, "A", "proj"), filepath.Join(root, "B", "proj")
+	os.Setenv("C10_SRCA", a)
+	os.Setenv("C10_SRCB", b)
+	os.Setenv("C10_SRCROOT", root)
+	return a, b
 }
 
 var refCache = map[string][]byte{}
@@ -77,7 +137,7 @@ var refErr = map[string]bool{}
 // reference would share whatever the process has cached and agree with a stale answer)
 func needsFreshProcess(lines []string) bool {
 	for _, l := range lines {
-		if strings.HasPrefix(l, "source_path=") || strings.HasPrefix(l, "trim_path=") {
+		if strings.HasPrefix(l, "source_path=") || strings.HasPrefix(l, "trim_path=") || strings.HasPrefix(l, "intel_syntax=") {
 			return true
 		}
 	}
@@ -105,7 +165,10 @@ func childRun(lines []string) *childResult {
 		return nil
 	}
 	defer os.Remove(f.Name())
-	json.NewEncoder(f).Encode(lines)
+	json.NewEncoder(f).Encode(struct {
+		Lines []string `json:"lines"`
+		Bin   bool     `json:"bin"`
+	}{lines, binMode})
 	f.Close()
 	out := f.Name() + ".out"
 	defer os.Remove(out)
@@ -125,9 +188,14 @@ func childRun(lines []string) *childResult {
 }
 
 func childMain(path, out string) {
-	var lines []string
+	var in struct {
+		Lines []string `json:"lines"`
+		Bin   bool     `json:"bin"`
+	}
 	b, _ := os.ReadFile(path)
-	json.Unmarshal(b, &lines)
+	json.Unmarshal(b, &in)
+	lines := in.Lines
+	binMode = in.Bin
 	prof = theProfile()
 	r := session(lines)
 	cr := childResult{Files: r.Files}
@@ -140,7 +208,7 @@ func childMain(path, out string) {
 
 // reference output: fresh session, only the assignments in effect, then the line
 func reference(prefix []string, cmd string) ([]byte, bool) {
-	key := strings.Join(prefix, "\n") + "\n=>" + cmd
+	key := fmt.Sprint(binMode) + strings.Join(prefix, "\n") + "\n=>" + cmd
 	if b, ok := refCache[key]; ok {
 		return b, refErr[key]
 	}
@@ -159,6 +227,13 @@ func reference(prefix []string, cmd string) ([]byte, bool) {
 }
 
 func interactiveCase(raw json.RawMessage, c *scase) {
+	binMode = false
+	for _, l := range c.Lines {
+		if strings.HasPrefix(l.Line, "disasm ") {
+			binMode = true
+		}
+	}
+	defer func() { binMode = false }()
 	var typed []string
 	outName := map[int]string{}
 	for i, l := range c.Lines {
@@ -202,6 +277,16 @@ func interactiveCase(raw json.RawMessage, c *scase) {
 		if refFailed != !ok {
 			run.Violate("interactive", "leak:"+kinds+":"+l.Line, fmt.Sprintf("line %d %q: produced output=%v in the session, %v in a fresh session with the same options", i, l.Line, ok, !refFailed), raw, nil)
 			continue
+		}
+		if os.Getenv("C10_DEBUG") != "" {
+			fmt.Fprintf(os.Stderr, "DEBUG line %d %q ok=%v refFailed=%v\n--- got\n%s\n--- want\n%s\n", i, l.Line, ok, refFailed, got, want)
+		}
+		// the directed histories over listings and disassembly really produce them (vacuity counters)
+		if l.Line == "list g" && bytes.Contains(got, []byte("a.c line 20")) {
+			run.Counter("listings_with_source", 1)
+		}
+		if l.Line == "disasm main" && bytes.Contains(got, []byte("rbp")) {
+			run.Counter("disassemblies", 1)
 		}
 		if !bytes.Equal(got, want) {
 			run.Violate("interactive", "leak:"+kinds+":"+l.Line, fmt.Sprintf("line %d %q after %q differs from a fresh session with options %q:\n--- in session\n%s\n--- fresh\n%s", i, l.Line, typed[:i], c.Prefix[i], clip(got), clip(want)), raw, nil)
@@ -452,6 +537,11 @@ func main() {
 	only := run.Extra // "", "c09" (bad/noop lines and error queries only) or "c10"
 	run.EachCase(func(i int, raw json.RawMessage) {
 		var c scase
+		orig := raw // violations record the case as the specification wrote it ($SRCA / $SRCB), so that replays work
+		if bytes.Contains(raw, []byte("$SRC")) {
+			a, b := sourceDirs()
+			raw = json.RawMessage(bytes.ReplaceAll(bytes.ReplaceAll(raw, []byte("$SRCA"), []byte(a)), []byte("$SRCB"), []byte(b)))
+		}
 		if err := json.Unmarshal(raw, &c); err != nil {
 			run.Infra("case decode: " + err.Error())
 			return
@@ -465,11 +555,14 @@ func main() {
 		if only == "c09" && !hasBad {
 			return
 		}
-		interactiveCase(raw, &c)
+		interactiveCase(orig, &c)
 		if i%700 == 0 {
 			run.Sample(json.RawMessage(raw))
 		}
 	})
+	if root := os.Getenv("C10_SRCROOT"); root != "" {
+		os.RemoveAll(root)
+	}
 	webPart(run.N)
 	settingsUsable()
 	keys := make([]string, 0)
